@@ -5,7 +5,8 @@
    Proofs/C03Transfer.v (ex_inside, ex_extrap_left, ex_extrap_right, ex_periodic, ex_edge_knots).               *)
 From Coq Require Import List Reals ZArith QArith Qreals.
 From PG Require Import Base.Ops Base.Vec Model.BSpline Proofs.C03Basis Proofs.C03Scale Proofs.C03Row
-  Proofs.C03Periodic Proofs.C03Transfer.
+  Proofs.C03Periodic Proofs.C03PeriodicSupport Proofs.C03PeriodicLip Proofs.C03PeriodicWrap
+  Proofs.C03PeriodicShift Proofs.C03Transfer.
 Import ListNotations.
 Open Scope R_scope.
 
@@ -72,7 +73,15 @@ Theorem C03_periodic_rows_sum_to_one : forall n k xs0 row, bspline_scaled Rfops 
   length row = n /\ Forall (fun v => 0 <= v) row /\ vsum Rrops row = 1.
 Proof. exact periodic_row. Qed.
 Print Assumptions C03_periodic_rows_sum_to_one.
-(* _partial: not proved for the periodic basis: the (cyclic) support-width statement. *)
+(* ... and at most k+1 CYCLICALLY consecutive of its n columns are non-zero: there is a start column s < n such that every
+   column c outside { (s + d) mod n : d = 0..k } is zero (every order, size and x; the folded row has n columns, k+1 <= n,
+   so these k+1 residues are distinct).  Example: ex_support_hyp (Proofs/C03PeriodicShift.v). *)
+Theorem C03_periodic_support : forall n k xs0 row, bspline_scaled Rfops n k true xs0 = Some row ->
+  length row = n /\ Forall (fun v => 0 <= v) row /\
+  exists s, (s < n)%nat /\
+    forall c, (c < n)%nat -> (forall d, (d <= k)%nat -> c <> ((s + d) mod n)%nat) -> nth c row 0 = 0.
+Proof. exact periodic_support. Qed.
+Print Assumptions C03_periodic_support.
 
 (* on the clipped sliver [1, 1+1e-9) of the wrapped axis (the former S10 gap) the row is the row of the right edge;
    in x: for hi <= x < lo + (1+1e-9)*(hi-lo) the row equals the row at x = hi *)
@@ -87,19 +96,51 @@ Theorem C03_periodic_former_gap_point :
 Proof. exact periodic_former_gap_point. Qed.
 Print Assumptions C03_periodic_former_gap_point.
 
-(* period.  _partial: the exact period of the code is p = (1+1e-9) * knot range (the code wraps with x % (1+1e-9), then
-   clips to the right edge): basis(x + m*p) = basis(x) for every x and integer m, clipped sliver included.
-   "period = knot range" holds only up to that relative 1e-9 and is refuted as an exact statement below.  No Lipschitz
-   bound |basis(x + range) - basis(x)| <= c * 1e-9 is proved; the harness probes it on the implementation. *)
-Theorem C03_periodic_period_partial : forall ek0 ek1 n k x (m : Z), ek0 <> ek1 ->
+(* period.  The exact period of the code is p = (1+1e-9) * knot range (the code wraps with x % (1+1e-9), then clips to the
+   right edge): basis(x + m*p) = basis(x) for every x and integer m, clipped sliver included.  "Period = knot range" (the
+   property text) is false as an exact statement (refuted below) and true up to n * 1e-9 (C03_periodic_shift_bound). *)
+Theorem C03_periodic_exact_period : forall ek0 ek1 n k x (m : Z), ek0 <> ek1 ->
   bspline_row Rfops ek0 ek1 n k true (x + IZR m * (1 + / 1000000000) * (Rmax ek0 ek1 - Rmin ek0 ek1))
   = bspline_row Rfops ek0 ek1 n k true x.
 Proof. exact bspline_row_period. Qed.
-Print Assumptions C03_periodic_period_partial.
+Print Assumptions C03_periodic_exact_period.
 Theorem C03_periodic_period_knot_range_refuted : exists ek0 ek1 n k x, ek0 <> ek1 /\ (k < n)%nat /\
   bspline_row Rfops ek0 ek1 n k true (x + (Rmax ek0 ek1 - Rmin ek0 ek1)) <> bspline_row Rfops ek0 ek1 n k true x.
 Proof. exact period_knot_range_refuted. Qed.
 Print Assumptions C03_periodic_period_knot_range_refuted.
+
+(* "repeats with period equal to the knot range", quantitatively, order k >= 1, EVERY x (no exclusion zone, the wrap point
+   included): a shift of x by exactly one knot range changes every column by at most n * 1e-9, where n = n_splines = 1/h is
+   the Lipschitz constant of the columns in scaled units (h = knot spacing; |B'| <= 1/h by the B-spline derivative formula).
+   Example: ex_shift_bound_hyp. *)
+Theorem C03_periodic_shift_bound : forall ek0 ek1 n k c x, ek0 <> ek1 -> (1 <= k < n)%nat -> (c < n)%nat ->
+  Rabs (match bspline_row Rfops ek0 ek1 n k true (x + (Rmax ek0 ek1 - Rmin ek0 ek1)) with Some row => nth c row 0 | None => 0 end
+        - match bspline_row Rfops ek0 ek1 n k true x with Some row => nth c row 0 | None => 0 end)
+  <= INR n * / 1000000000.
+Proof. exact bspline_row_shift_bound. Qed.
+Print Assumptions C03_periodic_shift_bound.
+(* its two ingredients, on the wrapped axis [0,1] of the scaled position: the columns are Lipschitz with constant n ... *)
+Theorem C03_periodic_lipschitz : forall n k c w1 w2, (1 <= k < n)%nat -> (c < n)%nat -> 0 <= w1 -> w1 <= w2 -> w2 <= 1 ->
+  Rabs (match bspline_scaled Rfops n k true w2 with Some row => nth c row 0 | None => 0 end
+        - match bspline_scaled Rfops n k true w1 with Some row => nth c row 0 | None => 0 end) <= INR n * (w2 - w1).
+Proof. exact pcol_lipschitz_wrapped. Qed.
+Print Assumptions C03_periodic_lipschitz.
+(* ... and continuous across the wrap: the row at the right edge is the row at the left edge (the 1e-9 bump of the last
+   augmented knot never reaches a non-zero term inside [0,1]) *)
+Theorem C03_periodic_continuous_across_wrap : forall n k, (k < n)%nat -> (1 <= k)%nat -> forall c, (c < n)%nat ->
+  match bspline_scaled Rfops n k true 1 with Some row => nth c row 0 | None => 0 end
+  = match bspline_scaled Rfops n k true 0 with Some row => nth c row 0 | None => 0 end.
+Proof. exact pcol_wrap_continuous. Qed.
+Print Assumptions C03_periodic_continuous_across_wrap.
+(* order 0 (piecewise constant, so no Lipschitz statement): the rows at x and x + range are EQUAL unless the wrapped position
+   x_scaled mod (1+1e-9) lies in one of the n windows [t_j, t_j + 1e-9) just above a knot t_j = j/n (t_0 = 0 is the wrap
+   point) -- the jump points of the shifted basis are the knots moved by 1e-9 * range.  Inside such a window the rows can
+   differ (C03_periodic_period_knot_range_refuted is such a point).  Example: ex_order0_shift_hyp. *)
+Theorem C03_periodic_order0_shift : forall n xs0 j0, (j0 < n)%nat ->
+  knot Rfops (n + 0) 0 j0 + / 1000000000 <= fmod Rfops xs0 (1 + / 1000000000) < knot Rfops (n + 0) 0 (S j0) ->
+  bspline_scaled Rfops n 0 true (xs0 + 1) = bspline_scaled Rfops n 0 true xs0.
+Proof. exact order0_shift. Qed.
+Print Assumptions C03_periodic_order0_shift.
 
 (* the basis depends on x only through its position relative to the edge knots.
    _partial: requires distinct edge knots.  For equal knots the code replaces the scale 0 by 1, so the basis is then
